@@ -79,6 +79,9 @@ func checkC19(c *Ctx) {
 		okInc := fl.K.Key(st.Val) == "(p0->"+kBF+"len + c:1)" && falseOf(facts, func(k string) bool {
 			return strings.HasPrefix(k, kIsSetCall+"*p0, ") || strings.HasPrefix(k, kIsSetCall+"p0, ") || strings.HasPrefix(k, kIsSetCall+"p0->"+kBF+"data, ")
 		})
+		if !okInc && fl.K.Key(st.Val) == "(p0->"+kBF+"len + c:1)" {
+			okInc = c19ChangedByteGate(fl, st)
+		}
 		c.Check(okInc, "C19.2", "set: len++ only for a bit that was clear", p.InstrPos(st), "len := len+1 only under !isSet(byteIdx, bitIdx)", "increment not gated by !isSet; facts: "+join(facts.Sorted()))
 	}
 	if nInc == 0 {
@@ -437,6 +440,29 @@ func checkC19(c *Ctx) {
 				if grows && enough(fl.K.Key(ci.Common().Args[1])) {
 					extOK = true
 					return true
+				}
+				// an ensure-size helper: `grow(n)` returns at once under n <= len(data) and otherwise appends
+				// n-len(data) fresh zero bytes; called with byteIdx+1
+				var growIn ssa.Instruction
+				eachInstr(cal, func(x ssa.Instruction) {
+					if g := growAmount(cal, x); strings.HasPrefix(g, "(p1 - builtin len(") {
+						growIn = x
+					}
+				})
+				if ak := fl.K.Key(ci.Common().Args[1]); growIn != nil && strings.Contains(ak, kIndexCall) && strings.HasSuffix(ak, "+ c:1)") {
+					hfl := NewFlow(p, cal)
+					w := cfgSearch(hfl, nil, cal.Blocks[0], isReturn, func(x ssa.Instruction) bool { return x == growIn }, func(fs []Fact) bool {
+						for _, f := range fs {
+							if f.Op == "<=" && f.L == "p1" && strings.HasPrefix(f.R, "builtin len(") {
+								return true
+							}
+						}
+						return false
+					})
+					if w == nil {
+						extOK = true
+						return true
+					}
 				}
 			}
 			return false
@@ -1010,4 +1036,79 @@ func c19StopsOnFalse(c *Ctx, root *ssa.Function, what string) {
 	c.Check(witness == "", "C19.7", what+": no callback after the callback said stop", p.FuncPos(root),
 		"from the edge taken when f returns false no further call of f is reachable (through "+itoa(len(scope))+" function(s), following returned constants into the callers)",
 		"after f returned false the walk can go on and call f again at "+witness+": callers that stop at the first match see a later element")
+}
+
+// c19ChangedByteGate: the increment at st is reached only through the true edge of `data[i] != old`, where old was read
+// from data[i], then data[i] was set to old | 1<<bit, then read again: the byte changed exactly when the bit was clear.
+func c19ChangedByteGate(fl *Flow, st *ssa.Store) bool {
+	fn := fl.Fn
+	for _, b := range fn.Blocks {
+		iff, ok := b.Instrs[len(b.Instrs)-1].(*ssa.If)
+		if !ok || len(b.Succs) != 2 {
+			continue
+		}
+		bo, ok := iff.Cond.(*ssa.BinOp)
+		if !ok || (bo.Op != token.NEQ && bo.Op != token.EQL) {
+			continue
+		}
+		gate := b.Succs[0]
+		if bo.Op == token.EQL {
+			gate = b.Succs[1]
+		}
+		if len(gate.Preds) != 1 || !gate.Dominates(st.Block()) {
+			continue
+		}
+		for _, pair := range [][2]ssa.Value{{bo.X, bo.Y}, {bo.Y, bo.X}} {
+			newv, oldv := pair[0], pair[1]
+			ln, ok1 := newv.(*ssa.UnOp)
+			lo, ok2 := oldv.(*ssa.UnOp)
+			if !ok1 || !ok2 || ln.Op != token.MUL || lo.Op != token.MUL {
+				continue
+			}
+			ian, ok1 := ln.X.(*ssa.IndexAddr)
+			iao, ok2 := lo.X.(*ssa.IndexAddr)
+			if !ok1 || !ok2 || fl.K.Key(ian) != fl.K.Key(iao) || !strings.HasSuffix(fl.K.Key(iao.X), kBF+"data") {
+				continue
+			}
+			// between the two reads: exactly the store data[i] = old | (1 << bit)
+			found := false
+			eachInstr(fn, func(in ssa.Instruction) {
+				s2, ok := in.(*ssa.Store)
+				if !ok {
+					return
+				}
+				ia2, ok := s2.Addr.(*ssa.IndexAddr)
+				if !ok || fl.K.Key(ia2) != fl.K.Key(iao) {
+					return
+				}
+				or, ok := s2.Val.(*ssa.BinOp)
+				if !ok || or.Op != token.OR {
+					found = false
+					return
+				}
+				var mask ssa.Value
+				if or.X == ssa.Value(lo) {
+					mask = or.Y
+				} else if or.Y == ssa.Value(lo) {
+					mask = or.X
+				}
+				if mask == nil {
+					return
+				}
+				for i := 0; i < 3; i++ {
+					if cv, isConv := mask.(*ssa.Convert); isConv {
+						mask = cv.X
+					}
+				}
+				sh, ok := mask.(*ssa.BinOp)
+				if ok && sh.Op == token.SHL && isIntConst(sh.X, 1) && precedes(lo, s2) && precedes(s2, ln) {
+					found = true
+				}
+			})
+			if found {
+				return true
+			}
+		}
+	}
+	return false
 }
